@@ -78,8 +78,15 @@ struct verif_access {
     p.state_count = 0;
     std::unique_ptr<typename P::state_analyzer> sa(new typename P::state_analyzer(p.gi, p.states, p.parse_table));
     p.state_count = sa->analyze_states();
+    // the generator's intermediate sets (cbitsets of the real state_analyzer): nullable nonterminals and FIRST of every nonterminal
+    std::string& fs = first_sets(); fs = "NULLABLE ";
+    for (size_t n = 0; n < P::nterm_count; ++n) fs += sa->nterm_empty.test(n) ? '1' : '0';
+    fs += "\n";
+    for (size_t n = 0; n < P::nterm_count; ++n) { fs += "FIRST " + std::to_string(n) + " "; for (size_t t = 0; t < P::term_count; ++t) fs += sa->nterm_first[n].test(t) ? '1' : '0'; fs += "\n"; }
   }
+  static std::string& first_sets() { static thread_local std::string s; return s; }
   template<class P> static void dump(const P& p, std::ostream& o) {
+    o << first_sets();
     o << "STATES " << p.state_count << "\n";
     for (size16_t s = 0; s < p.state_count; ++s) {
       o << "S" << s << ":";
